@@ -1973,7 +1973,14 @@ namespace adept {
     // Resize specifying order
     void resize_row_major(const ExpressionSize<Rank>& dim) {
       resize(&dim[0]);
-      pack_row_major_();
+      if (internal::array_row_major_order) {
+	pack_row_major_();
+      }
+      else {
+	// resize() has allocated size() elements for the default
+	// column-major layout, which leaves no room for padded rows
+	pack_row_major_contiguous_();
+      }
     }
     void resize_row_major_contiguous(const ExpressionSize<Rank>& dim) {
       resize(&dim[0], true);
